@@ -33,6 +33,7 @@ func main() {
 	if d := os.Getenv("VERIF_SPEC_DIR"); d != "" {
 		specDir = d
 	}
+	loadKnownFindings()
 	if os.Args[1] == "c14-worker" {
 		os.Exit(c14Worker(os.Args[2:]))
 	}
